@@ -217,6 +217,7 @@ func GenTable(t *rapid.T, name Ident, o Opts) Table {
 		pk = rapid.IntRange(1, 2).Draw(t, "pkstyle2")
 	}
 	pkcol := rapid.IntRange(0, n-1).Draw(t, "pkcol")
+	tpkSingle := pk == 2 && rapid.Bool().Draw(t, "tpksingle") // table constraint on exactly the column pkcol
 	for i := range tb.Cols {
 		c := &tb.Cols[i]
 		if o.Conservative {
@@ -225,6 +226,10 @@ func GenTable(t *rapid.T, name Ident, o Opts) Table {
 			c.Type = rapid.SampledFrom(typeNames).Draw(t, "type")
 		}
 		var cons []string
+		if (pk == 1 || (pk == 2 && tpkSingle)) && i == pkcol && rapid.Bool().Draw(t, "intlike") {
+			// exercise the rowid-alias rule: type names near INTEGER
+			c.Type = rapid.SampledFrom([]string{"INTEGER", "INTEGER", "integer", "Integer", "INT", "INTEGER(10)", "INTEGER(8,2)", "BIGINT", "\"INTEGER\"", "[INTEGER]", "`integer`", "INTEGERS", "UNSIGNED INTEGER"}).Draw(t, "inttype")
+		}
 		if pk == 1 && i == pkcol {
 			s := "PRIMARY KEY" + rapid.SampledFrom([]string{"", "", " ASC", " DESC"}).Draw(t, "pkdir")
 			if !o.Conservative {
@@ -289,7 +294,13 @@ func GenTable(t *rapid.T, name Ident, o Opts) Table {
 		return ""
 	}
 	if pk == 2 {
-		tb.Cons = append(tb.Cons, prefix()+"PRIMARY KEY ("+GenIndexedCols(t, ids, 3, "tpk")+")"+func() string {
+		pkcols := ""
+		if tpkSingle {
+			pkcols = ids[pkcol].SQL + rapid.SampledFrom([]string{"", "", " ASC", " DESC"}).Draw(t, "tpkdir")
+		} else {
+			pkcols = GenIndexedCols(t, ids, 3, "tpk")
+		}
+		tb.Cons = append(tb.Cons, prefix()+"PRIMARY KEY ("+pkcols+")"+func() string {
 			if o.Conservative {
 				return ""
 			}
@@ -323,6 +334,8 @@ type Index struct {
 	Table  Ident
 	Unique bool
 	Cols   []string // indexed column texts
+	Exprs  []string // the same without COLLATE / ASC / DESC (for ORDER BY in the oracle)
+	Plain  []bool   // the indexed column is a plain column reference
 	Where  string   // "" = none
 }
 
@@ -349,9 +362,12 @@ func GenIndex(t *rapid.T, name Ident, tb Table, unique, exprs, partial bool) Ind
 		var s string
 		if exprs && rapid.IntRange(0, 4).Draw(t, "iexpr") == 0 {
 			s = GenExpr(t, ids, rapid.IntRange(0, 3).Draw(t, "iexprsimple") > 0)
+			ix.Plain = append(ix.Plain, false)
 		} else {
 			s = perm[i].SQL
+			ix.Plain = append(ix.Plain, true)
 		}
+		ix.Exprs = append(ix.Exprs, s)
 		if rapid.IntRange(0, 3).Draw(t, "icoll") == 0 {
 			s += " COLLATE " + rapid.SampledFrom(collations).Draw(t, "icolln")
 		}
